@@ -124,6 +124,12 @@ def step (toks : List String) (impl : String) : Res :=
     { model := s!"ok queued={if full then 0 else min targets limit} free={limit}",
       monitor := if kv it "free" != toString limit then [if full then "slot_returned_queue_full" else "slot_returned_gossip"] else [],
       tags := ["gossipq", if full then "queue-full" else "queue-free"] }
+  | some "gossiprace" =>
+    -- gossip calls racing with a queue that fills and empties under them: whatever was dropped on the way, every slot is back
+    let limit := kvNat toks "limit"
+    { model := s!"free={limit} targets_ge1=1",
+      monitor := if kv it "free" != toString limit then ["slot_returned_queue_full_under_load"] else [],
+      tags := ["gossiprace"] }
   | some "inbound" =>
     -- accepted inbound offers: a slot each while the node waits for the announced connection, all back afterwards
     let limit := kvNat toks "limit"
